@@ -102,6 +102,8 @@ func verifRowsScan(r *sql.Rows, dest ...any) error {
 			*d = row[i].(bool)
 		case *string:
 			*d = row[i].(string)
+		case *int:
+			*d = int(row[i].(int64))
 		default:
 			return fmt.Errorf("verif: unsupported Scan destination %T", d)
 		}
